@@ -83,7 +83,7 @@ Definition compiler_passes_loader_defs : defs_t := [
   ("ast.ArrayType", {| o_fields := [("value_type", NObj "ast.Type")]; o_extra := None |});
   ("ast.EnumType", {| o_fields := [("values", NSeq (NObj "ast.EnumValue"))]; o_extra := None |});
   ("ast.EnumValue", {| o_fields := [("type", NObj "ast.Type"); ("name", NScalar KString); ("value", NAny)]; o_extra := None |});
-  ("ast.MapType", {| o_fields := [("index_type", NObj "ast.Type"); ("value_type", NObj "ast.Type")]; o_extra := None |});
+  ("ast.MapType", {| o_fields := [("indextype", NObj "ast.Type"); ("valuetype", NObj "ast.Type")]; o_extra := None |});
   ("ast.StructType", {| o_fields := [("fields", NSeq (NObj "ast.StructField"))]; o_extra := None |});
   ("ast.RefType", {| o_fields := [("referred_pkg", NScalar KString); ("referred_type", NScalar KString)]; o_extra := None |});
   ("ast.ConstantReferenceType", {| o_fields := [("referred_pkg", NScalar KString); ("referred_type", NScalar KString); ("reference_value", NAny)]; o_extra := None |});
@@ -214,7 +214,7 @@ Definition veneers_loader_defs : defs_t := [
   ("ast.ArrayType", {| o_fields := [("value_type", NObj "ast.Type")]; o_extra := None |});
   ("ast.EnumType", {| o_fields := [("values", NSeq (NObj "ast.EnumValue"))]; o_extra := None |});
   ("ast.EnumValue", {| o_fields := [("type", NObj "ast.Type"); ("name", NScalar KString); ("value", NAny)]; o_extra := None |});
-  ("ast.MapType", {| o_fields := [("index_type", NObj "ast.Type"); ("value_type", NObj "ast.Type")]; o_extra := None |});
+  ("ast.MapType", {| o_fields := [("indextype", NObj "ast.Type"); ("valuetype", NObj "ast.Type")]; o_extra := None |});
   ("ast.StructType", {| o_fields := [("fields", NSeq (NObj "ast.StructField"))]; o_extra := None |});
   ("ast.RefType", {| o_fields := [("referred_pkg", NScalar KString); ("referred_type", NScalar KString)]; o_extra := None |});
   ("ast.ConstantReferenceType", {| o_fields := [("referred_pkg", NScalar KString); ("referred_type", NScalar KString); ("reference_value", NAny)]; o_extra := None |});
